@@ -152,7 +152,7 @@ def shrink(case):
     n = len(case['pts'])
     if n > 2:
         for i in range(n):
-            yield {k: v[:i] + v[i + 1:] for k, v in case.items()}
+            yield {k: (v[:i] + v[i + 1:] if isinstance(v, list) else v) for k, v in case.items()}
 
 
 STREAMS = [Stream(
